@@ -237,6 +237,7 @@ func arithS(g *G, bin, un []string, qs bool) {
 							continue
 						}
 						g.emit(mkA(op, c, x, x, q, "", fresh), op)
+						aliased(g, op, c, x, x, q)
 					}
 					continue
 				}
@@ -244,6 +245,7 @@ func arithS(g *G, bin, un []string, qs bool) {
 					continue
 				}
 				g.emit(mkA(op, c, x, x, 0, "", fresh), op)
+				aliased(g, op, c, x, x, 0)
 				if op == "dreduce" || op == "reduce" { // into a destination that held a non-finite value
 					g.emit(mkA(op, c, x, x, 0, "", specialDecs[g.R.Intn(len(specialDecs))]), op+"/pre")
 				}
@@ -267,6 +269,7 @@ func arithS(g *G, bin, un []string, qs bool) {
 		y := vq[i/(len(cq)*len(vq))]
 		for _, op := range bin {
 			g.emit(mkA(op, c, x, y, 0, "", fresh), op)
+			aliased(g, op, c, x, y, 0)
 		}
 	})
 	n := g.pick(40000, 500000)
@@ -359,8 +362,22 @@ func arithL(g *G, ops []string) {
 				}
 			}
 			g.emit(mkA(op, c, x, y, q, "", fresh), op)
+			aliased(g, op, c, x, y, q)
 		}
 	}
+}
+
+// aliased emits, for one case in eight, the same call with the destination being the first
+// or the second operand: the outcome is judged by the same specification.
+func aliased(g *G, op string, c Ctx, x, y Dec, q int) {
+	if g.R.Intn(8) != 0 {
+		return
+	}
+	al := "dx"
+	if binOps[op] && g.R.bool() {
+		al = "dy"
+	}
+	g.emit(mkA(op, c, x, y, q, al, fresh), op+"/"+al)
 }
 
 // perturb returns x with its coefficient changed by +-1 or +-1 in a high digit.
@@ -415,6 +432,7 @@ func arithLInt(g *G, ops []string) {
 				}
 			}
 			g.emit(mkA(op, c, x, y, q, "", fresh), op)
+			aliased(g, op, c, x, y, q)
 		}
 	}
 }
